@@ -366,7 +366,7 @@ def ijepa(prog: Program, rep: Report):
             if isinstance(y, ast.Subscript) and isinstance(y.slice, ast.Slice) and y.slice.lower is None and _n(y.slice.upper) \
                     and any(cfg.reachable(n2, co_) for co_ in coll):
                 cut_vars.add(_n(y.slice.upper))
-    rep.floor("common cut lengths before collation (one per mask kind)", len(cut_vars), 2)
+    rep.floor("running minima / common cut lengths (one per mask kind)", len(cut_vars | {v for _, v, _ in minima}), 2)
     for cv in sorted(cut_vars - {v for _, v, _ in minima}):
         rep.bad("G9.own-complements", co, f"common-length:unmaintained:{len(cut_vars)}", f"the masks are cut to '{cv}', which is "
                 f"never updated with the lengths of the sampled masks (no '{cv} = min({cv}, len(mask))'): masks shorter than it "
